@@ -2,7 +2,7 @@
    (work/C06/Cases_k.v): model output vs. what was recorded from the Go implementation.
    Imports only the model (no proofs), so the correspondence still runs when a proof breaks. *)
 From Verif Require Import Common.Base.
-From Verif Require Export C06.Model.   (* the generated case files name Pipe, NExp, NConn *)
+From Verif Require Export C06.Model C06.TreeModel.   (* the generated case files name Pipe, NExp, NConn, CFanout, ... *)
 
 (* wire label (tag, (i, (k, v))): tag 0 = the fan-out's next consumer call; 1 = consumer i appends
    marker v; 2 = consumer i sets entry k to v; 3 = consumer i removes the entries with marker v;
@@ -51,6 +51,11 @@ Definition wev_eqb (a b : wev) : bool :=
          (the model is the same for the four files; the tag only labels the case).
    CPipe sig procs exps | observed: MutatesData advertised by the pipeline's capabilitiesNode in a
          graph built by service/internal/graph.Build.
+   CGraph sig tree | the consumer tree of a graph built by graph.Build (children of every fan-out in the order
+         the implementation delivered to them — map iteration order of the graph library, read off the run);
+         observed: per component in delivery order (id, 2*cell + IsReadOnly, markers seen on arrival) and
+         (id, markers finally in the payload it holds).  One payload is pushed; every declared-mutating
+         component writes its id as a marker.
    CRouter sig pipe_caps sel | observed: MutatesData of connector router.Consumer(sel...), of the router
          itself (fan-out over all pipelines), and the pipelines invoked, in order, by the selected consumer.
    CTree sig roots | observed: MutatesData of the consumer handed to the receiver that feeds the root
@@ -61,6 +66,7 @@ Inductive vcase :=
        (o_cap : bool) (o_evs : list wev) (o_final : list (option (list Z))) (o_ro0 : bool) (o_err : list N)
 | CPipe (sig : nat) (procs exps : list bool) (o_cap : bool)
 | CTree (sig : nat) (roots : list pipe) (o_recv_cap : bool) (o_caps : list bool)
+| CGraph (sig : nat) (tree : comp) (o_arr : list (nat * (nat * list Z))) (o_fin : list (nat * list Z))
 | CRouter (sig : nat) (pipe_caps : list bool) (sel : list nat) (o_cap o_default_cap : bool) (o_calls : list nat).
 
 Record fan_out := mkOut { f_cap : bool; f_evs : list wev; f_final : list (option (list Z)); f_ro0 : bool; f_err : list N }.
@@ -86,6 +92,30 @@ with pipe_caps (p : pipe) : list bool :=
 Definition router_calls (pcaps : list bool) (sel : list nat) : list nat :=
   map (fun k => nth k sel 0) (call_order (router_fan pcaps sel)).
 
+(* cells are compared up to renaming: numbered by first appearance in the delivery log (cell 0 = the sent
+   payload), as the Go harness numbers payload identities — a clone handed to a pipeline without processors
+   is first seen by a component only after that pipeline's own fan-out has cloned again *)
+Fixpoint index_of (c : nat) (l : list nat) (k : nat) : option nat :=
+  match l with
+  | [] => None
+  | x :: r => if x =? c then Some k else index_of c r (S k)
+  end.
+
+Fixpoint canon_obs (seen : list nat) (l : list tev) : list (nat * (nat * list Z)) :=
+  match l with
+  | [] => []
+  | TArr id c ro sn :: r =>
+      match index_of c seen 0 with
+      | Some k => (id, (2 * k + (if ro then 1 else 0), sn)) :: canon_obs seen r
+      | None => (id, (2 * length seen + (if ro then 1 else 0), sn)) :: canon_obs (seen ++ [c]) r
+      end
+  | TPanic _ :: r => canon_obs seen r
+  end.
+
+Definition obs_eqb (a b : nat * (nat * list Z)) : bool :=
+  Nat.eqb (fst a) (fst b) && Nat.eqb (fst (snd a)) (fst (snd b)) && listZ_eqb (snd (snd a)) (snd (snd b)).
+Definition fin_eqb (a b : nat * list Z) : bool := Nat.eqb (fst a) (fst b) && listZ_eqb (snd a) (snd b).
+
 Definition check_case (c : vcase) : bool :=
   match c with
   | CFan _ caps ro_in c0 errs ls o_cap o_evs o_final o_ro0 o_err =>
@@ -96,6 +126,12 @@ Definition check_case (c : vcase) : bool :=
       && Bool.eqb (f_ro0 o) o_ro0
       && list_eqb N.eqb (f_err o) o_err
   | CPipe _ procs exps o_cap => Bool.eqb (pipeline_cap procs exps) o_cap
+  | CGraph _ tree o_arr o_fin =>
+      let '(s', ev) := run_graph tree [] in
+      is_router tree && ok tree
+      && list_eqb obs_eqb (canon_obs [0] ev) o_arr
+      && list_eqb fin_eqb (final_obs s' ev) o_fin
+      && match panics ev with [] => true | _ => false end
   | CRouter _ pcaps sel o_cap o_dcap o_calls =>
       Bool.eqb (fan_cap (router_fan pcaps sel)) o_cap
       && Bool.eqb (fan_cap (new_fan pcaps)) o_dcap
@@ -105,11 +141,13 @@ Definition check_case (c : vcase) : bool :=
   end.
 
 (* model outputs, for replay files *)
-Inductive mout := MFan (o : fan_out) | MCaps (l : list bool) | MCalls (c d : bool) (l : list nat).
+Inductive mout := MFan (o : fan_out) | MCaps (l : list bool) | MCalls (c d : bool) (l : list nat)
+| MGraph (a : list (nat * (nat * list Z))) (f : list (nat * list Z)) (p : list nat).
 Definition model_out (c : vcase) : mout :=
   match c with
   | CFan _ caps ro_in c0 errs ls _ _ _ _ _ => MFan (model_fan caps ro_in c0 errs ls)
   | CPipe _ procs exps _ => MCaps [pipeline_cap procs exps]
+  | CGraph _ tree _ _ => let '(s', ev) := run_graph tree [] in MGraph (canon_obs [0] ev) (final_obs s' ev) (panics ev)
   | CRouter _ pcaps sel _ _ _ => MCalls (fan_cap (router_fan pcaps sel)) (fan_cap (new_fan pcaps)) (router_calls pcaps sel)
   | CTree _ roots _ _ => MCaps (fan_cap (new_fan (map pipe_cap_t roots)) :: flat_map pipe_caps roots)
   end.
